@@ -8,7 +8,7 @@ used to compute an expected value.
 
 Grammar (S scalar, V vector, M matrix):
   S: var(name) elem(V,i) melem(M,i,j) const(kind,value) param(name) bin(op,S,S) un(f,S)
-     vsum(V) vector_sum(V) dot(V,V,style) lincomb(coeffs,V,style) norm(V,ord,style)
+     vsum(V) vector_sum(V) dot(V,V,style) dotself(V,style) lincomb(coeffs,V,style) norm(V,ord,style)
      quad(V,Q,style) msum(M) fro(M) trace(M,style)
   V: vvar(name) slice(V,a,b,s) row(M,i,a,b,s) col(M,a,b,s,j) diag(M,style)
      vbin(op,V,operand,side) vneg(V) vfn(f,V) vpow(V,k) matvec(A,V,style) mvarvec(M,V) vexpr([S])
@@ -20,7 +20,7 @@ from __future__ import annotations
 
 import numpy as np
 
-S_KINDS = {"var", "elem", "melem", "const", "param", "bin", "un", "vsum", "vector_sum", "dot",
+S_KINDS = {"var", "elem", "melem", "const", "param", "bin", "un", "vsum", "vector_sum", "dot", "dotself",
            "lincomb", "norm", "quad", "msum", "fro", "trace"}
 V_KINDS = {"vvar", "slice", "row", "col", "diag", "vbin", "vneg", "vfn", "vpow", "matvec",
            "mvarvec", "vexpr"}
@@ -211,6 +211,10 @@ class ElemAlg:
         a, b = self.ev(A), self.ev(B)
         assert len(a) == len(b)
         return self._fold(self.sc.bin("*", x, y) for x, y in zip(a, b))
+
+    def n_dotself(self, A, style):
+        a = self.ev(A)
+        return self._fold(self.sc.bin("*", x, x) for x in a)
 
     def n_lincomb(self, coeffs, V, style):
         v = self.ev(V)
@@ -466,6 +470,10 @@ class BuildAlg:
     def n_dot(self, A, B, style):
         a, b = self.ev(A), self.ev(B)
         return a.dot(b) if style == "dot" else a @ b
+
+    def n_dotself(self, A, style):
+        a = self.ev(A)  # one object used on both sides
+        return a.dot(a) if style == "dot" else a @ a
 
     def n_lincomb(self, coeffs, V, style):
         from optyx.core.vectors import LinearCombination
